@@ -260,6 +260,7 @@ type hist = {
   mutable failed_apply : bool;        (* some apply failed / some device error was injected in this history *)
   mutable rollbacks : int;
   mutable crashes : int;
+  mutable refused : (int * int) list;  (* (target, index): the device's latest answer to this change was a refusal *)
   before_change : (int * int, (string * string) list * (string * bool) list) Hashtbl.t;
   (* (target, index) -> what Get showed just before that change was merged, and the change's (path, deleted) list *)
 }
@@ -268,7 +269,7 @@ let hist_of id =
   let h = List.hd (String.split_on_char ':' id) in
   match Hashtbl.find_opt hists h with
   | Some x -> x
-  | None -> let x = { prev = None; kind = "atomic"; failed_apply = false; rollbacks = 0; crashes = 0; before_change = Hashtbl.create 8 } in Hashtbl.replace hists h x; x
+  | None -> let x = { prev = None; kind = "atomic"; failed_apply = false; rollbacks = 0; crashes = 0; refused = []; before_change = Hashtbl.create 8 } in Hashtbl.replace hists h x; x
 
 (* C09: the results of the no-effect proposal reconciles since the last state-changing step of a history *)
 let c09_results : (string, ((int * int) * string) list) Hashtbl.t = Hashtbl.create 64
@@ -473,6 +474,23 @@ let monitors id (label : sx) (pre : istate) (post : istate) (dl : (n * n * n * r
        | [ A "rec"; A "cfg"; _; _; _ ] ->
          if c.c_state <> CSynchronizing then specviol id "c10_resync_outside_synchronizing" (Printf.sprintf "target %d" t)
        | _ -> specviol id "c10_request_from_unexpected_step" (Printf.sprintf "target %d" t))) dl;
+  (* C11: a change whose latest answer from the device was a refusal is never marked applied *)
+  (let h = hist_of id in
+   List.iter (fun (t, _, _, (_ : req), code) ->
+     match lst label with
+     | [ A "rec"; A "prop"; tl; il; _; _ ] when inum tl = int_of_n t ->
+       let k = (int_of_n t, inum il) in
+       (match code with
+        | COk -> h.refused <- List.filter (fun x -> x <> k) h.refused
+        | CUnavailable | CCanceled | CDeadlineExceeded | CPermissionDenied -> ()
+        | _ -> if not (List.mem k h.refused) then h.refused <- k :: h.refused)
+     | _ -> ()) dl;
+   List.iter (fun (t, i) ->
+     match find_assoc (t, i) pprops with
+     | Some p when p.p_apply = Some Done ->
+       specviol id "c11_refused_change_marked_applied" (Printf.sprintf "proposal %d-%d: the device refused it, it is APPLIED" t i);
+       h.refused <- List.filter (fun x -> x <> (t, i)) h.refused
+     | _ -> ()) h.refused);
   (* C11: a recorded refusal is final; a change is marked applied only by a request the device answered OK (or because
      the applied index already covers it, or on a persistent target, which has no device) *)
   List.iter (fun ((t, i), p0) ->
